@@ -206,7 +206,7 @@ class Controller:
         self.spin = 0
         if len(self.inflight) > self.max_inflight:
             self.max_inflight = len(self.inflight)
-        n = len({e.sid for e in self.inflight})
+        n = len({e.sid for e in self.inflight if e.kind != "setup_done" and not e.fut.done()})
         if n > self.max_inflight_sims:
             self.max_inflight_sims = n
         return fut
